@@ -10,7 +10,6 @@ import (
 	"sort"
 	"strings"
 
-	"github.com/imroc/req/v3"
 	"github.com/imroc/req/v3/verifharness/hk"
 )
 
@@ -89,44 +88,6 @@ func (in formIn) key() string { return fmt.Sprintf("form:%q", fmt.Sprint(in)) }
 type sent struct {
 	Err     string
 	Arrived *arrived
-}
-
-func (g *gen) sendForm(in formIn) sent {
-	c := req.C()
-	defer c.GetTransport().CloseIdleConnections()
-	if len(in.CForm) > 0 {
-		c.SetCommonFormDataFromValues(valuesOfForm(in.CForm))
-	}
-	if in.CCT != "" {
-		c.SetCommonContentType(in.CCT)
-	}
-	rq := c.R()
-	if len(in.RForm) > 0 {
-		rq.SetFormDataFromValues(valuesOfForm(in.RForm))
-	}
-	if len(in.Ordered) > 0 {
-		rq.SetOrderedFormData(in.Ordered...)
-	}
-	if in.RCT != "" {
-		rq.SetContentType(in.RCT)
-	}
-	x := g.nextX()
-	var out sent
-	func() {
-		defer func() {
-			if p := recover(); p != nil {
-				out.Err = fmt.Sprint("panic: ", p)
-			}
-		}()
-		resp, err := rq.Send(in.Method, g.o.url(x))
-		if err != nil {
-			out.Err = err.Error()
-		} else if resp.Err != nil {
-			out.Err = resp.Err.Error()
-		}
-	}()
-	out.Arrived = g.o.take(x)
-	return out
 }
 
 // serverForm: what a standard server-side handler gets from Request.ParseForm (PostForm) for the
@@ -241,7 +202,7 @@ func (g *gen) oracleForm(in formIn, s sent) {
 
 // sameMultimap: equal key sets; per key the same values in the same order (when both levels
 // contribute to one key the order between the levels is not prescribed: compare as multisets then).
-func sameMultimap(got url.Values, want map[string][]string) bool {
+func sameMultimap(got, want map[string][]string) bool {
 	if len(got) != len(want) {
 		return false
 	}
@@ -264,37 +225,7 @@ func sameMultimap(got url.Values, want map[string][]string) bool {
 }
 
 func (g *gen) oneForm(in formIn) {
-	r := g.r
-	s := g.sendForm(in)
-	g.oracleForm(in, s)
-	var ct, body []byte
-	arrivedOK := s.Arrived != nil
-	if arrivedOK {
-		ct, body = []byte(s.Arrived.Header.Get("Content-Type")), s.Arrived.Body
-	}
-	coq := fmt.Sprintf("FormCase %s %s %s %s %s %s %s",
-		coqForm(sortedForm(in.RForm)), coqForm(sortedForm(in.CForm)), hk.CoqStrList(in.Ordered),
-		hk.CoqBool(arrivedOK), hk.CoqBool(s.Err != ""), hk.CoqBytes(ct), hk.CoqBytes(body))
-	nt := len(in.CForm) > 0 && len(in.RForm) > 0
-	for _, f := range [][]kvs{in.RForm, in.CForm} {
-		seen := map[string]bool{}
-		for _, e := range f {
-			if needsEscape(e.K) || e.K == "" || len(e.Vs) > 1 || seen[e.K] {
-				nt = true
-			}
-			for _, v := range e.Vs {
-				if needsEscape(v) {
-					nt = true
-				}
-			}
-		}
-	}
-	for _, v := range in.Ordered {
-		if needsEscape(v) || v == "" {
-			nt = true
-		}
-	}
-	r.Add(hk.Case{Coq: coq, Desc: map[string]interface{}{"kind": "form", "in": in}}, in.key(), nt)
+	g.oneBody(reqIn{Kind: "form", Method: in.Method, RForm: in.RForm, CForm: in.CForm, Ordered: in.Ordered, RCT: in.RCT, CCT: in.CCT})
 }
 
 func (g *gen) ordered(n int) []string {
